@@ -92,6 +92,11 @@ CHECKS = {
    "Decoder: never a panic, no 'need more' once the outer frame is complete, exact consumption, definite non-envelopes never delivered. Driver: with 1-3 operations pending, hostile bytes never panic or wedge the driver (virtual watchdog) and definite non-envelopes end the connection with an error every pending operation observes. Stack: up to ~250 000 nested elements in 1 MiB decoded on a 2 MiB stack in a child process.",
    "Trusted base: harness BER reader (classification of 'definitely not an envelope'), SIM. A panic in the caller's task on a well-enveloped ill-formed result is outside the statement and only labelled.",
    "DESIGN.md §3 C11, Appendix D", "harness"),
+ "C17": ("fault_enumeration",
+   "exhaustive enumeration of the establishment fault product (scheme x verification x server certificate x StartTLS reply x post-reply behaviour, 132 cells) with generated parameters per cell, against an adversarial TLS server on real loopback sockets that records every raw byte",
+   "Every adversarial establishment behaviour is enumerated; oracle: only the StartTLS request and TLS records travel in cleartext, Ok iff TLS was really established under the effective trust settings, operations after Ok travel inside TLS and never see forged cleartext responses; a client-side hang until the guard is a violation because the scripted server always acts immediately.",
+   "Trusted base: native-tls/OpenSSL acceptor, committed test PKI (/verif/tls), harness BER/request decoder. Real sockets and wall time; env-* problems (bind, 20 s guard) yield exit 2.",
+   "DESIGN.md §3 C17", "harness"),
 }
 
 NOT_YET = {}
